@@ -82,6 +82,15 @@ def run(ctx):
         inp = rnd.choice(INPUTS)
         if '(range .)' in e and inp in ('18446744073709551615', '1e300'): inp = '7'        # collection sizes <= 10^4 (resource exhaustion is out of scope)
         cases.append(mkcase('E%d' % i, cfg, inp.encode('utf8')))
+    # regular expressions whose groups may not take part in a match (alternation, optional and repeated groups), every group index
+    RX = ['(a)|(b)', 'a(b)?c', '(x)?(y)?z', '(?:a)(b)*', '(a)(?P<n>b)?', '((a)|(b))+', '(a*)(b*)', '^(?:(é)|(e))$', '(', 'a{2,1}', '']
+    SUBJ = ['ac', 'abc', 'a', 'b', 'z', 'yz', 'é', 'e', '', 'bbb']
+    k = 0
+    for rx in RX:
+        for sj in SUBJ:
+            for gi in range(0, 4):
+                k += 1
+                cases.append(mkcase('E_r%d' % k, lib.new_cfg(select=['(extract_regex_group %s %s %d)=g' % (json.dumps(sj, ensure_ascii=False), json.dumps(rx, ensure_ascii=False), gi), '(match %s %s)=m' % (json.dumps(sj, ensure_ascii=False), json.dumps(rx, ensure_ascii=False))]), b'null'))
     def proj(c, r, side):
         if c['id'].startswith('E'): return ('done' if r['result'] not in ('panic', 'hang', 'abort', 'stackoverflow') else r['result'],)
         # error messages quote the offending byte, which may itself be a line break: compare the rows only
